@@ -441,7 +441,7 @@ structure Res (α : Type) where
 
 inductive Step (α σ : Type) where
   | next (st : St α) (o : σ)
-  | done (r : Res α)
+  | done (r : Res α) (o : σ)
 
 def initSt (accel : Bool) : St α :=
   { i := 0, accel := accel, alpha := 0, simplex := ⟨⟨0, 0, 0⟩, ⟨0, 0, 0⟩, ⟨0, 0, 0⟩, ⟨0, 0, 0⟩⟩, len := 0,
@@ -477,41 +477,51 @@ def project (s : Simplex α) (len : Nat) (sp : V3 α) : Except Err (Proj α) :=
   else if len = 4 then projectTetraToOrigin s
   else .error .assertFail
 
+/-- `if not inside: ray_len = np.linalg.norm(ray)` -/
+def projRayLen (st : St α) (p : Proj α) : α := if p.inside then st.rayLen else V3.norm p.ray
+
+/-- the tail of the `while` body after the projection -/
+def afterProject {σ : Type} (cfg : Cfg α) (st : St α) (rayDir sp : V3 α) (alpha : α) (o' : σ)
+    (p : Proj α) : Step α σ :=
+  if p.inside ∨ isZero (projRayLen st p) then
+    .done ⟨true, -cfg.inflation - 1, p.simplex, p.len, st.i, 4⟩ o'
+  else
+    .next { i := st.i + 1, accel := st.accel, alpha := alpha, simplex := p.simplex,
+            len := p.len, ray := p.ray, rayLen := projRayLen st p, rayDir := rayDir,
+            supportPoint := sp } o'
+
+/-- the part of the `while` body after the support call: `omega` against `upper_bound`, the
+Frank–Wolfe switch, `alpha`, the convergence test and the projection -/
+def decideStep {σ : Type} (cfg : Cfg α) (st : St α) (rayDir sp : V3 α) (omega : α) (o' : σ) :
+    Except Err (Step α σ) :=
+  let simplex := st.simplex.setRow st.len sp
+  let len := st.len + 1
+  if cfg.upperBound < omega then
+    .ok (.done ⟨false, omega - cfg.inflation, simplex, len, st.i, 2⟩ o')
+  else if st.accel && fwGapSmall cfg.tol st.ray sp then
+    .ok (.next { st with accel := false, simplex := simplex, rayDir := rayDir, supportPoint := sp } o')
+  else
+    let alpha := max st.alpha omega
+    if decide (0 < st.i) && cvCheckPassed cfg.tol st.rayLen alpha then
+      if st.accel then
+        .ok (.next { st with accel := false, alpha := alpha, simplex := simplex, rayDir := rayDir,
+                             supportPoint := sp } o')
+      else
+        let distance := st.rayLen - cfg.inflation
+        .ok (.done ⟨decide (distance < cfg.tol), distance, simplex, st.len, st.i, 3⟩ o')
+    else (project simplex len sp).map (afterProject cfg st rayDir sp alpha o')
+
 /-- one pass of the `while` body. `supp` answers `support_function(-ray_dir, …)` and threads an
 oracle state `σ` (unit for a support mapping, the remaining recorded answers for a trace). -/
 def pass {σ : Type} (cfg : Cfg α) (supp : σ → V3 α → Except Err ((V3 α × V3 α) × σ))
     (st : St α) (o : σ) : Except Err (Step α σ) :=
   if st.rayLen < cfg.tol then
-    .ok (.done ⟨true, -cfg.inflation, st.simplex, st.len, st.i, 1⟩)
+    .ok (.done ⟨true, -cfg.inflation, st.simplex, st.len, st.i, 1⟩ o)
   else do
     let rayDir := nextRayDir cfg st
     let ((s0, s1), o') ← supp o (-rayDir)
-    let sp := s0 - s1
-    let simplex := st.simplex.setRow st.len sp
-    let len := st.len + 1
-    let omega ← omegaOf rayDir sp
-    if cfg.upperBound < omega then
-      .ok (.done ⟨false, omega - cfg.inflation, simplex, len, st.i, 2⟩)
-    else if st.accel && fwGapSmall cfg.tol st.ray sp then
-      .ok (.next { st with accel := false, simplex := simplex, rayDir := rayDir, supportPoint := sp } o')
-    else
-      let alpha := max st.alpha omega
-      if decide (0 < st.i) && cvCheckPassed cfg.tol st.rayLen alpha then
-        if st.accel then
-          .ok (.next { st with accel := false, alpha := alpha, simplex := simplex, rayDir := rayDir,
-                               supportPoint := sp } o')
-        else
-          let distance := st.rayLen - cfg.inflation
-          .ok (.done ⟨decide (distance < cfg.tol), distance, simplex, st.len, st.i, 3⟩)
-      else do
-        let p ← project simplex len sp
-        let rayLen := if p.inside then st.rayLen else V3.norm p.ray
-        if p.inside ∨ isZero rayLen then
-          .ok (.done ⟨true, -cfg.inflation - 1, p.simplex, p.len, st.i, 4⟩)
-        else
-          .ok (.next { i := st.i + 1, accel := st.accel, alpha := alpha, simplex := p.simplex,
-                       len := p.len, ray := p.ray, rayLen := rayLen, rayDir := rayDir,
-                       supportPoint := sp } o')
+    let omega ← omegaOf rayDir (s0 - s1)
+    decideStep cfg st rayDir (s0 - s1) omega o'
 
 /-- `while i < max_interations:`; falling out of the loop returns the initial `distance = 0.0` -/
 def loop {σ : Type} (cfg : Cfg α) (supp : σ → V3 α → Except Err ((V3 α × V3 α) × σ)) :
@@ -521,7 +531,7 @@ def loop {σ : Type} (cfg : Cfg α) (supp : σ → V3 α → Except Err ((V3 α 
     if st.i < cfg.maxIter then do
       match ← pass cfg supp st o with
       | .next st' o' => loop cfg supp fuel st' o'
-      | .done r => .ok (r, o)
+      | .done r o' => .ok (r, o')
     else .ok (⟨false, 0, st.simplex, st.len, st.i, 5⟩, o)
 
 /-- `gjk_nesterov_accelerated(collider0, collider1, max_interations, upper_bound, tolerance,
